@@ -255,7 +255,7 @@ func mustMarshal(m proto.Message) []byte {
 
 func (g *gen) mNRS(h int64, r int32, step uint32) wireMsg {
 	lcr := int32(0)
-	if h <= 1 {
+	if h <= g.n.genDoc.InitialHeight { // a peer at the chain's first height has no last commit
 		lcr = -1
 	}
 	return wm(chState, fmt.Sprintf("NewRoundStep h=%d r=%d step=%d lcr=%d", h, r, step, lcr),
@@ -438,10 +438,9 @@ func (g *gen) cleanVote(h int64) wireMsg {
 // previousHeight: messages of every kind for the height before the node's, or height 0.
 func (g *gen) previousHeight(in *n3Input) {
 	in.Class = "seq:previous-height"
-	h := g.lc.H - 1
-	if g.r.Intn(5) == 0 {
-		h = 0
-	}
+	// the height before the node's, the one before the chain's first, the first, 0 and 1
+	ih := g.n.genDoc.InitialHeight
+	h := pick64(g.r, g.lc.H-1, g.lc.H-1, g.lc.H-1, g.lc.H-1, ih-1, ih, 0, 1)
 	for i := 0; i < 1+g.r.Intn(3); i++ {
 		r := int32(pick64(g.r, 0, 0, 1, int64(g.lc.R), 1000))
 		var m wireMsg
@@ -575,7 +574,7 @@ func (g *gen) statefulInput(in *n3Input) {
 	in.DwellMs = 60
 	in.Mirror = g.r.Intn(3) == 0
 	step := uint32(pick64(g.r, 1, 2, 3, 4, 5, 6, 7, 8))
-	prev := H > 1 && g.r.Intn(4) == 0 // (e): the peer says it is at the node's previous height
+	prev := H > g.n.genDoc.InitialHeight && g.r.Intn(4) == 0 // (e): the peer says it is at the node's previous height
 	realBID := g.lc.PrevBID
 	if g.lc.PropBID != nil {
 		realBID = *g.lc.PropBID
@@ -844,8 +843,8 @@ func (g *gen) evidenceInput(in *n3Input) {
 	in.Class = "mutated-fields"
 	var evs []tmproto.Evidence
 	h := g.lc.H - 1 - int64(g.r.Intn(3))
-	if h < 1 {
-		h = 1
+	if h < g.n.genDoc.InitialHeight {
+		h = g.n.genDoc.InitialHeight
 	}
 	k := g.r.Intn(12)
 	switch {
@@ -1196,7 +1195,7 @@ func (g *gen) makeInput1(batch, idx int) *n3Input {
 		g.peerR = g.lc.R + 1
 		in.Prefix = []wireMsg{g.mNRS(g.lc.H, g.peerR, 3)}
 	case "behind":
-		if g.lc.H > 2 {
+		if g.lc.H > g.n.genDoc.InitialHeight+1 {
 			g.peerH, g.peerR = g.lc.H-1-int64(g.r.Intn(2)), 0
 		}
 		in.Prefix = []wireMsg{g.mNRS(g.peerH, g.peerR, uint32(pick64(g.r, 1, 4, 6, 8)))}
